@@ -179,6 +179,8 @@ func verifDescribeFrame(m rpcMessage, err error) string {
 	return "other " + cls
 }
 
+type sessTagKey struct{}
+
 type endpoint struct {
 	id   int
 	conn *simConn
@@ -287,7 +289,11 @@ func (s *session) newEndpoint(id int, c *simConn) *endpoint {
 		}
 	}
 	e.xp = NewTransport(c, sessLogFactory{s.r, id}, &recStorage{s.r, id}, nil, s.max).(*transport)
-	e.cli = NewClientWithSendNotifier(e.xp, nil, nil, func(q SeqNumber) { s.r.ev("sn %d %d", id, int(q)) })
+	// the client's tag-extraction function: the context value under sessTagKey travels as the RPC tag "sid"
+	tagsFunc := func(ctx context.Context) (map[interface{}]string, bool) {
+		return map[interface{}]string{sessTagKey{}: "sid"}, true
+	}
+	e.cli = NewClientWithSendNotifier(e.xp, nil, tagsFunc, func(q SeqNumber) { s.r.ev("sn %d %d", id, int(q)) })
 	e.srv = NewServer(e.xp, nil)
 	mk := func() interface{} { return new(interface{}) }
 	wrap := func(method string, body func(ctx context.Context, h int, arg interface{}) (interface{}, error)) ServeHandlerDescription {
@@ -410,6 +416,9 @@ func fullMethod(m string) string {
 	if m == "lecho" {
 		return "late." + m
 	}
+	if m == "big" {
+		return "p." + strings.Repeat("m", 300)
+	}
 	return "p." + m
 }
 
@@ -425,6 +434,7 @@ type sessOp struct {
 	timeout time.Duration // >0: client timeout
 	pad     int           // payload padding (bytes) to approach the frame limit
 	badarg  bool          // the argument cannot be encoded (its MarshalBinary fails)
+	sid     bool          // the context carries the value the client's tag-extraction function selects
 }
 
 // unencodable fails in go-codec's encoder: a field that marshals itself
@@ -458,6 +468,11 @@ func (s *session) runOp(op sessOp, ctx context.Context) {
 	if op.tagged {
 		ctx = AddRPCTagsToContext(ctx, CtxRPCTags{"t": op.nonce})
 		want["t"] = op.nonce
+	}
+	if op.sid && op.kind != "notify" {
+		// joined by the client's tag-extraction function (calls and compressed calls only)
+		ctx = context.WithValue(ctx, sessTagKey{}, int64(42))
+		want["sid"] = int64(42)
 	}
 	tg := tagsCode(want, len(want) > 0)
 	if op.badarg {
@@ -518,6 +533,7 @@ func genPlan(g *prng, flavour string) sessPlan {
 			op.ctype = []int{1, 2, 7, 0}[g.intn(4)]
 		}
 		op.tagged = g.chance(1, 3)
+		op.sid = g.chance(1, 3)
 		switch g.intn(5) {
 		case 0:
 			op.cancel = true
@@ -584,7 +600,7 @@ func genPlan(g *prng, flavour string) sessPlan {
 	case "hostile":
 		for k := 0; k < 1+g.intn(4); k++ {
 			p.inject = append(p.inject, fmt.Sprintf("%s@%d",
-				[]string{"dupresp", "strayresp", "straycancel", "nfcall", "nfnotify", "dupresp", "nflate"}[g.intn(7)], g.intn(2)))
+				[]string{"dupresp", "strayresp", "straycancel", "nfcall", "nfnotify", "dupresp", "nflate", "negcancel"}[g.intn(8)], g.intn(2)))
 		}
 		if g.chance(1, 4) {
 			// a fatal frame racing a local Close of the same endpoint: Err() must settle on ONE value
@@ -628,6 +644,17 @@ func genPlan(g *prng, flavour string) sessPlan {
 		for i := range p.ops {
 			if g.chance(1, 2) {
 				p.ops[i].pad = 200 + g.intn(60)
+			}
+			if p.ops[i].kind != "notify" && g.chance(1, 5) {
+				// oversized through its METHOD NAME, with a context that ends: the cancellation names the method too
+				p.ops[i].method = "big"
+				p.ops[i].pad = 0
+				p.ops[i].badarg = false
+				if g.chance(1, 2) {
+					p.ops[i].cancel = true
+				} else {
+					p.ops[i].timeout = time.Second
+				}
 			}
 		}
 	}
@@ -770,6 +797,13 @@ func runSession(g *prng, p sessPlan, script []string) (hist []string, trace []st
 					enc.intv(&body, 3)
 					enc.intv(&body, int64(9000+k))
 					enc.str(&body, []byte("p.echo"))
+				case "negcancel":
+					// a cancellation naming the task key of a NOTIFICATION (-2 is the first one's): no conforming client
+					// sends it; whatever it does to that handler, closing the transport must still cancel it
+					body.WriteByte(0x93)
+					enc.intv(&body, 3)
+					enc.intv(&body, int64(-2-(k%2)))
+					enc.str(&body, []byte("p.wait"))
 				case "nfcall":
 					body.WriteByte(0x94)
 					enc.intv(&body, 0)
